@@ -415,7 +415,7 @@ class CatLinearOperator(LinearOperator):
         """
         device, dtype = _to_helper(*args, **kwargs)
 
-        new_kwargs = {**self._kwargs, "output_device": device}
+        new_kwargs = {**self._kwargs, "output_device": device if device is not None else self.output_device}
         res = self.__class__(*self._args, **new_kwargs)
 
         if dtype is not None:
